@@ -92,6 +92,36 @@ func genTreeCase(depth bool) func(t *rapid.T) TreeCase {
 			c.Init = rapid.SliceOfN(rapid.IntRange(0, 47), 0, 30).Draw(t, "init")
 			c.Ops = rapid.SliceOfN(genOp(opKindsModel), 0, vk.MaxOps(t, 60, 400)).Draw(t, "ops")
 		}
+		if rapid.IntRange(0, 7).Draw(t, "dupInit") == 0 {
+			// bulk construction from a few distinct keys given many times over
+			// (the count of arguments and the count of keys differ by a large
+			// factor), with a removal or a path-extending run as the first operations
+			base := rapid.SliceOfN(rapid.IntRange(0, 47), 1, 8).Draw(t, "dupBase")
+			reps := rapid.SampledFrom([]int{3, 4, 5, 9, 17, 40}).Draw(t, "dupReps")
+			c.Init = c.Init[:0]
+			for j := 0; j < reps; j++ {
+				c.Init = append(c.Init, base...)
+			}
+			first := []Op{{Kind: "removeI", A: rapid.IntRange(0, 400).Draw(t, "dupRm")}}
+			if rapid.Bool().Draw(t, "dupRun") {
+				first = append(first, Op{Kind: rapid.SampledFrom([]string{"asc", "desc"}).Draw(t, "dupRunKind"), A: rapid.IntRange(0, 39).Draw(t, "dupRunLen")})
+			}
+			if rapid.Bool().Draw(t, "dupRunFirst") {
+				first[0], first[len(first)-1] = first[len(first)-1], first[0]
+			}
+			c.Ops = append(first, c.Ops...)
+		}
+		if rapid.IntRange(0, 7).Draw(t, "cloneGrow") == 0 {
+			// a tree of hundreds of keys (at ANY balance factor), a Clone that
+			// becomes the active tree, and path-extending Adds on the clone: the
+			// clone has to balance by the same factor as its source
+			grp := []Op{
+				{Kind: rapid.SampledFrom([]string{"ascL", "descL"}).Draw(t, "cgFill"), A: rapid.IntRange(0, 1399).Draw(t, "cgLen"), B: rapid.IntRange(0, 2).Draw(t, "cgVia")},
+				{Kind: "clone", A: 1},
+				{Kind: rapid.SampledFrom([]string{"asc", "desc", "zig"}).Draw(t, "cgRun"), A: rapid.IntRange(7, 39).Draw(t, "cgRunLen"), B: rapid.IntRange(0, 2).Draw(t, "cgRunVia")},
+			}
+			c.Ops = append(grp, c.Ops...)
+		}
 		// Construction instead of rejection: most cases get the shapes the
 		// non-triviality rule asks for spliced in at drawn positions.
 		if rapid.IntRange(0, 3).Draw(t, "structured") > 0 {
